@@ -1,6 +1,6 @@
 (* C19: the hypotheses of the theorems are satisfiable, and the model computes what one expects on small inputs. *)
 From Coq Require Import ZArith List Bool.
-From C19 Require Import Model ProofsBase ProofsInt ProofsRat ProofsElt ProofsPoly ProofsDest ProofsPair ProofsBuf.
+From C19 Require Import Model ProofsBase ProofsInt ProofsRat ProofsElt ProofsPoly ProofsDest ProofsPair ProofsBuf ProofsHex ProofsMore.
 Import ListNotations.
 Local Open Scope Z_scope.
 
@@ -37,7 +37,7 @@ Proof. split; [split; [discriminate|vm_compute; discriminate]|repeat constructor
 Example ex_limbs : length (limbs_of (Nat.pow 2 1) (2 ^ 128 - 1)) = Nat.pow 2 1. Proof. reflexivity. Qed.
 (* "5 55 0 0 0 0 100\n3 1 7 0 3\n1 9 2\n0 7" into one variable that holds eight coefficients 100 *)
 Example ex_poly_seq_dirty :
-  map fst (read_many_into (fun s cur => poly_read_into 0 0 1 (elt_read (init_mod 101)) s 0 cur) 4
+  map fst (read_many_into (fun s cur => poly_read_into 0 0 1 (elt_read (init_mod 101)) s cur) 4
      (from_chars (sep_texts [10] (map (poly_degfmt elt_write) [[100; 0; 0; 0; 0; 55]; [3; 0; 7; 1]; [2; 9]; [7]])))
      [100; 100; 100; 100; 100; 100; 100; 100])
   = [[100; 0; 0; 0; 0; 55]; [3; 0; 7; 1]; [2; 9]; [7]].
@@ -48,7 +48,23 @@ Example ex_int_seq_dirty :
 Proof. vm_compute. reflexivity. Qed.
 Example ex_rat_exc_keeps : fst (rat_read_into (from_chars [52; 47; 48]) (-1, 2)) = ((-1, 2), true).   (* "4/0" *)
 Proof. vm_compute. reflexivity. Qed.
-Example ex_pair_fails : failb (snd (poly_read (elt_read (init_mod 101)) (from_chars (poly_write [88] elt_write [1; 2])) 0)) = true.
+Example ex_pair_fails : failb (snd (poly_read (elt_read (init_mod 101)) (from_chars (poly_write [88] elt_write [1; 2])) [])) = true.
 Proof. vm_compute. reflexivity. Qed.
 Example ex_buf_hyp : 0 <= 2 ^ 128 - 1 < 2 ^ (2 ^ Z.of_nat 7) /\ 2 ^ Z.of_nat 7 / 3 + 1 <= Z.of_nat (Z.to_nat (2 ^ Z.of_nat 7 / 3 + 2)).
 Proof. split; [split; [vm_compute; discriminate|reflexivity]|apply source_buffer_ok]. Qed.
+(* phase 4: the read that finds no degree.  HISTORY body: undefined on "-1", on the empty text and at end of file;
+   repaired body: "-1" is the zero polynomial, otherwise P is left alone and the stream fails *)
+Example ex_v0_undefined :
+  poly_read_into_v0 0 0 1 (elt_read (init_mod 101)) (from_chars [45; 49]) [7] = None /\
+  poly_read_into_v0 0 0 1 (elt_read (init_mod 101)) (from_chars []) [7] = None /\
+  poly_read_into_v0 0 0 1 (elt_read (init_mod 101)) (mkS [] true false) [7] = None.
+Proof. repeat split. Qed.
+Example ex_fixed_defined :
+  poly_read_into 0 0 1 (elt_read (init_mod 101)) (from_chars [45; 49]) [7] = ([], mkS [] true false) /\
+  poly_read_into 0 0 1 (elt_read (init_mod 101)) (mkS [] true false) [7] = ([7], mkS [] true true) /\
+  degree_read (from_chars [50; 32; 49]) = true /\ degree_read (from_chars [120]) = false.
+Proof. repeat split. Qed.
+Example ex_hex_tail : head_nonxdigit 16 [32; 49] /\ head_nonxdigit 16 [103] /\ head_nonxdigit 16 [].
+Proof. repeat split. Qed.
+Example ex_unreduced : rat_read (from_chars (rat_write (2, 4))) = (Some (1, 2), mkS [] true false) /\ same_value (2, 4) (1, 2).
+Proof. split; vm_compute; reflexivity. Qed.
